@@ -1,10 +1,10 @@
 package checks
 
 import (
-	"strings"
-	"time"
 	"fmt"
 	"sort"
+	"strings"
+	"time"
 
 	"package-operator.run/verifharness/engine"
 	"package-operator.run/verifharness/kubesim"
